@@ -373,6 +373,7 @@ func (rc *runCtx) check(prop string, t0 time.Time) int {
 	violations := 0
 	discharged := 0
 	knownHit := []string{}
+	_ = knownHit
 	var oblRecords []map[string]interface{}
 	var solverMs int64
 	bySolver := map[string]int{}
@@ -533,7 +534,8 @@ func (rc *runCtx) check(prop string, t0 time.Time) int {
 		trusted = append(trusted, "contract-file: "+strings.TrimPrefix(t, rc.w.Repo+"/"))
 	}
 	sort.Strings(trusted[6:])
-	var assumptions []string
+	assumptions := []string{}
+	assumptions = append(assumptions, commonAssumptions...)
 	assumptions = append(assumptions, propAssumptions[prop]...)
 	for k := range dropped {
 		assumptions = append(assumptions, "abstraction: "+k)
@@ -572,7 +574,26 @@ func relFiles(fs []string, root string) []string {
 }
 
 // propAssumptions: paper arguments and stated gaps per property (DESIGN.md sections 5, 6, 8).
-var propAssumptions = map[string][]string{}
+var commonAssumptions = []string{
+	"B1 (paper argument): mx serialises all critical sections, so the monitor invariant RI proved at every unlock holds whenever the lock is free, for every history and interleaving; needs the C13 lock-discipline obligations",
+	"facts carried by an entry point across its own lock acquisition ('assumes' clauses) are stable predicates (Start once set stays set, T)",
+	"no function under contract inserts new keys into a map while ranging over it",
+	"callbacks and injected functions (process, createTaskRunner) do not modify runner state",
+}
+
+var propAssumptions = map[string][]string{
+	"C01": {"B2 (paper argument): a limit is a guard on the transitions that increase the population; a changed limit governs later transitions", "B3 (paper argument): task code runs only inside Scheduler.Schedule, which joins its stage goroutines before returning", "taskctl.Runner.Run returns only when the task's processes are done"},
+	"C03": {"liveness step (paper argument): fair timers and terminating tasks turn 'progress after every unblocking event' into 'eventually starts'"},
+	"C04": {"the spawned cancel goroutine runs and runner.Cancel stops the processes (C20 territory)", "a cancel acknowledged after the last task finished but before JobCompleted is not covered"},
+	"C05": {"B2 (paper argument) for the bound 'waiting <= queue_limit'"},
+	"C07": {"time.AfterFunc calls its function once, not before the delay, and not after a successful Stop; wall-clock time itself is not modelled"},
+	"C10": {"jsoniter Encode/Decode round trip (codec) is assumed, not proved", "persisted data carries pairwise distinct job ids"},
+	"C11": {"the persist loop turns a request into a save within its interval (select + Sleep, read not verified)", "sync.WaitGroup: Wait returns after all Done calls"},
+	"C12": {"sort.Sort orders by Less; os.RemoveAll removes exactly <logs>/<id>"},
+	"C13": {"Go memory model: sync.RWMutex gives happens-before", "the runner is used as a singleton per mutex (ghost lock state is per goroutine, not per runner object)", "taskctl.Scheduler/TaskRunner internals and objects handed out to callers (Variables, Env maps) are outside the claim"},
+	"C15": {"'quiescent moment' is 'lock free' (B1)"},
+	"C16": {"buildJobTasks copies the task definitions (trusted contract; order checked elsewhere)"},
+}
 
 func (rc *runCtx) dump(fnName, oblPat string) int {
 	all, ctxs, problems := rc.translateAll(func(short string) bool { return fnName == "" || strings.Contains(short, fnName) })
